@@ -226,6 +226,11 @@ func writeBlockSig(h io.Writer, b *ssa.BasicBlock) {
 	flush()
 }
 
+// looseSig: while set, call instructions are written without their number of
+// arguments and without their operand list (a dropped or added parameter leaves
+// the signature alone).
+var looseSig bool
+
 func writeInstrSig(h io.Writer, i ssa.Instruction) {
 	{
 		{
@@ -253,6 +258,15 @@ func writeInstrSig(h io.Writer, i ssa.Instruction) {
 					fmt.Fprintf(h, " %v", x.CommaOk)
 				case ssa.CallInstruction:
 					cc := x.Common()
+					if looseSig {
+						if cc.IsInvoke() {
+							fmt.Fprintf(h, " invoke")
+						} else {
+							fmt.Fprintf(h, " call %s", operandSig(cc.Value))
+						}
+						fmt.Fprintln(h)
+						return
+					}
 					if cc.IsInvoke() {
 						m := cc.Method
 						if m.Pkg() != nil && isRepoPkg(m.Pkg()) {
@@ -343,8 +357,39 @@ func (c *Check) assignShapes() {
 					o.ShapePkg = fmt.Sprintf("%s~%s~%s", g.rule, fnPkgPath(byName[g.fn]), o.LocalSeed)
 				}
 			}
+			if o.LooseSeed != "" && o.ShapePkg == "" {
+				o.ShapePkg = fmt.Sprintf("%s~%s~%s~%d", g.rule, fnPkgPath(byName[g.fn]), o.LooseSeed, nth["P"+o.LooseSeed])
+				nth["P"+o.LooseSeed]++
+			}
 		}
 	}
+}
+
+// sccLooseSeed: like sccSeed, from fingerprints that ignore how many parameters
+// the functions take and how many arguments their calls pass (a cycle whose
+// functions were renamed and lost or gained a parameter keeps it).
+func sccLooseSeed(fns []*ssa.Function) string {
+	looseSig = true
+	defer func() { looseSig = false }()
+	var fps []string
+	for _, f := range fns {
+		h := sha1.New()
+		var walk func(g *ssa.Function)
+		walk = func(g *ssa.Function) {
+			for _, b := range g.Blocks {
+				fmt.Fprintf(h, "B%d/%d\n", b.Index, len(b.Succs))
+				writeBlockSig(h, b)
+			}
+			for _, an := range g.AnonFuncs {
+				walk(an)
+			}
+		}
+		walk(f)
+		fps = append(fps, hex.EncodeToString(h.Sum(nil))[:16])
+	}
+	sort.Strings(fps)
+	h := sha1.Sum([]byte(strings.Join(fps, ",")))
+	return "loose" + hex.EncodeToString(h[:])[:14]
 }
 
 // sccSeed: fingerprint of a set of functions, independent of their names.
